@@ -215,7 +215,7 @@ CLAIMED = {
        'never hangs, ends within the sum of the limits, and when it is cut the time since the last completed step is exactly the limit of the step '
        'that was cut; every blocking step in the code\'s table — server: command, DATA phase, AUTH response, both TLS handshakes, close; relay: '
        'connect, immediate TLS, banner, EHLO/HELO, STARTTLS incl. handshake, AUTH, MAIL, RCPT, DATA, message data, RSET, QUIT, close — has a scope. '
-       'The table is what the correspondence validates: real SmtpEdge sessions (incl. real TLS) against a client stalling / trickling at 16 points, '
+       'The table is what the correspondence validates, in two ways: it is extracted from the current source on every run (harness/scopes.py walks the AST of server.py, edge/smtp.py, relay/smtp/client.py, lmtpclient.py, pipe.py and http.py and reports, for every call that can block on the peer, the timeout attribute of the innermost enclosing `with Timeout(...)` / start-cancel scope, or `unscoped`) and must equal the model\'s table (`timeouts table`; all_stages_listed shows it lists every stage); and by wall-clock runs: real SmtpEdge sessions (incl. real TLS) against a client stalling / trickling at 16 points, '
        'real StaticSmtpRelay / StaticLmtpRelay attempts against a peer stalling at 15 stages x PIPELINING x SMTP/LMTP, PipeRelay and HttpRelay '
        'against a program / server that never answers, with 80 / 200 ms timeouts: each run must end where the model says, not before 0.7x the '
        'limit, with a 421 / a transient failure, and never be blocked at the 3 s watchdog.',
